@@ -17,41 +17,30 @@
 struct osm_tape osm_tape;
 struct osm_state osm;
 
-/* tape[k] without a symbolic index */
-static int
-tape(const int *t, int n, int k)
-{
-	int i, v = 0;
-
-	for (i = 0; i < n; ++i) {
-		if (i == k)
-			v = t[i];
-	}
-	return v;
-}
+/* Tables are written under "loop counter == index" guards, never through a possibly symbolic index: CBMC then builds
+   field-wise multiplexers instead of array-theory constraints (which cost minutes and gigabytes on this model). */
+#define FOR_SLOT(i, n, idx) for (i = 0; i < (n); ++i) if (i == (idx))
+#define BIT(a) (1u << (a))
+#define ALLCHILD (BIT(OSM_MAXCHILD) - 1u)
+#define PIPEFDS  (BIT(2 * OSM_MAXCHILD) - 1u)
+#define WRITE_ENDS (0xaaaaaaaau & PIPEFDS)
 
 static int
-tapeb(const unsigned char *t, int n, int k)
+pop32(unsigned m)
 {
-	int i, v = 0;
-
-	for (i = 0; i < n; ++i) {
-		if (i == k)
-			v = t[i];
-	}
-	return v;
+	m = (m & 0x55555555u) + (m >> 1 & 0x55555555u);
+	m = (m & 0x33333333u) + (m >> 2 & 0x33333333u);
+	m = (m & 0x0f0f0f0fu) + (m >> 4 & 0x0f0f0f0fu);
+	m = (m & 0x00ff00ffu) + (m >> 8 & 0x00ff00ffu);
+	return (int)((m & 0xffffu) + (m >> 16));
 }
 
 void
 osm_reset(void)
 {
-	int i;
-
 	memset(&osm, 0, sizeof osm);
 	osm.unknown_left = osm_tape.nunknown;
 	osm.fa_in = osm.fa_out = -1;
-	for (i = 0; i < OSM_MAXFD; ++i)
-		osm.fd[i].pipe = -1;
 }
 
 /* a status word as Linux/glibc (and every historical Unix) encodes it: low 7 bits = terminating signal (0 =
@@ -74,16 +63,40 @@ osm_status_ok(int s)
 	return s == 0;
 }
 
+unsigned
+osm_livemask(void)
+{
+	return osm.spawned & ~osm.reaped;
+}
+
 int
 osm_nlive(void)
 {
-	int i, n = 0;
+	return pop32(osm_livemask());
+}
 
-	for (i = 0; i < OSM_MAXCHILD; ++i) {
-		if (i < osm.nchild && !osm.child[i].reaped)
-			++n;
-	}
-	return n;
+int
+osm_nchild(void)
+{
+	return pop32(osm.spawned);
+}
+
+int
+osm_term_missing(void)
+{
+	return pop32(osm.term_due & ~osm.termed);
+}
+
+int
+osm_write_ends_open(void)
+{
+	return pop32(osm.fd_open & WRITE_ENDS);
+}
+
+int
+osm_nopen(void)
+{
+	return pop32(osm.fd_open);
 }
 
 int
@@ -101,105 +114,57 @@ osm_was_unlinked(const char *path)
 int
 osm_tmp_left(void)
 {
-	int i, n = 0;
-
-	for (i = 0; i < OSM_MAXTMP; ++i) {
-		if (i < osm.ntmp && !osm.tmp_unlinked[i])
-			++n;
-	}
-	return n;
+	return osm.ntmp - pop32(osm.tmp_unlinked);
 }
 
-static unsigned
-livemask(void)
-{
-	unsigned m = 0;
-	int i;
-
-	for (i = 0; i < OSM_MAXCHILD; ++i) {
-		if (i < osm.nchild && !osm.child[i].reaped)
-			m |= 1u << i;
-	}
-	return m;
-}
-
+/* the driver learns of a failure: the stages still running from now on have to be terminated */
 static void
 failure(void)
 {
 	if (osm.nfail == 0)
-		osm.term_due = livemask();
+		osm.term_due = osm_livemask();
 	++osm.nfail;
 }
 
-int
-osm_term_missing(void)
+static int
+newattempt(void)
 {
-	int i, n = 0;
+	int a = osm.nattempt++;
 
-	for (i = 0; i < OSM_MAXCHILD; ++i) {
-		if ((osm.term_due >> i & 1) && osm.child[i].nterm == 0)
-			++n;
-	}
-	return n;
+	__CPROVER_assert(a < OSM_MAXCHILD, "os model: attempt tables large enough for the harness");
+	osm.cur = a;
+	osm.nfcntl_cur = 0;
+	return a;
 }
 
-int
-osm_write_ends_open(void)
+static void
+newchild(int a, pid_t *pidp, char **argv, int argc, const char *file, int in_fd, int out_fd, int in_pipe, int out_pipe, int leaked)
 {
-	int i, n = 0;
-
-	for (i = 0; i < OSM_MAXFD; ++i) {
-		if (osm.fd[i].kind == OSM_FD_PIPE_W)
-			++n;
-	}
-	return n;
-}
-
-struct osm_child *
-osm_child_of(pid_t *pidp)
-{
-	struct osm_child *c = 0;
 	int i;
 
-	for (i = 0; i < OSM_MAXCHILD; ++i) {
-		if (i < osm.nchild && osm.child[i].pidp == pidp)
-			c = &osm.child[i];
-	}
-	return c;
-}
-
-/* The tables are always indexed by a loop counter under an equality guard, never by a symbolic value: CBMC then
-   builds field-wise multiplexers instead of array-theory constraints (the latter cost minutes on this model). */
-#define FOR_SLOT(i, n, idx) for (i = 0; i < (n); ++i) if (i == (idx))
-
-static int
-newchild(pid_t *pidp)
-{
-	int i, k = osm.nchild;
-
-	__CPROVER_assert(k < OSM_MAXCHILD, "os model: child table large enough for the harness");
-	FOR_SLOT(i, OSM_MAXCHILD, k) {
-		osm.child[i].pid = osm_tape.pidbase + i;
+	__CPROVER_assert(!(osm.spawned >> a & 1), "os model: one child per spawn attempt");
+	FOR_SLOT(i, OSM_MAXCHILD, a) {
 		osm.child[i].pidp = pidp;
-		osm.child[i].argv = 0;
-		osm.child[i].argc = 0;
-		osm.child[i].file = 0;
-		osm.child[i].in_fd = osm.child[i].out_fd = osm.child[i].in_pipe = osm.child[i].out_pipe = -1;
-		osm.child[i].leaked = 0;
-		osm.child[i].reaped = 0;
+		osm.child[i].argv = argv;
+		osm.child[i].argc = argc;
+		osm.child[i].file = file;
+		osm.child[i].in_fd = in_fd;
+		osm.child[i].out_fd = out_fd;
+		osm.child[i].in_pipe = in_pipe;
+		osm.child[i].out_pipe = out_pipe;
+		osm.child[i].leaked = leaked;
 		osm.child[i].status = 0;
-		osm.child[i].nterm = 0;
 	}
-	++osm.nchild;
-	return k;
+	osm.spawned |= BIT(a);
 }
 
 pid_t
 osm_pretend_child(pid_t *pidp)
 {
-	int k = newchild(pidp);
+	int a = newattempt();
 
-	*pidp = osm_tape.pidbase + k;
+	newchild(a, pidp, 0, 0, 0, -1, -1, -1, -1, 0);
+	*pidp = osm_tape.pidbase + a;
 	return *pidp;
 }
 
@@ -209,44 +174,21 @@ osm_pretend_tmp(char *path)
 	int i;
 
 	__CPROVER_assert(osm.ntmp < OSM_MAXTMP, "os model: temporary table large enough for the harness");
-	FOR_SLOT(i, OSM_MAXTMP, osm.ntmp) {
+	FOR_SLOT(i, OSM_MAXTMP, osm.ntmp)
 		osm.tmp[i] = path;
-		osm.tmp_unlinked[i] = 0;
-	}
 	++osm.ntmp;
 	return path;
 }
 
-/* pipe id behind an open descriptor, -1 if none / not open */
+/* index of an open descriptor in the masks, -1 if fd is not one the model handed out and still open */
 static int
-pipe_of(int fd)
+fdbit(int fd)
 {
-	int i, p = -1;
+	int i = fd - OSM_FD0;
 
-	FOR_SLOT(i, OSM_MAXFD, fd - OSM_FD0) {
-		if (osm.fd[i].kind != OSM_FD_FREE)
-			p = osm.fd[i].pipe;
-	}
-	return p;
-}
-
-static int
-newfd(int kind, int pipeid)
-{
-	int i, k = -1;
-
-	for (i = OSM_MAXFD - 1; i >= 0; --i) {
-		if (osm.fd[i].kind == OSM_FD_FREE)
-			k = i;                          /* lowest free number, as POSIX requires */
-	}
-	__CPROVER_assert(k >= 0, "os model: descriptor table large enough for the harness");
-	FOR_SLOT(i, OSM_MAXFD, k) {
-		osm.fd[i].kind = kind;
-		osm.fd[i].cloexec = 0;
-		osm.fd[i].pipe = pipeid;
-	}
-	++osm.nopen;
-	return k + OSM_FD0;
+	if (i < 0 || i >= OSM_NFD || !(osm.fd_open >> i & 1))
+		return -1;
+	return i;
 }
 
 /* ------------------------------------------------------------------------------------------ processes */
@@ -255,7 +197,7 @@ int
 osm_posix_spawnp(pid_t *pid, const char *file, const posix_spawn_file_actions_t *fa, const posix_spawnattr_t *attr,
                  char *const argv[], char *const envp[])
 {
-	int k, n, i, j, leaked = 0, inp, outp;
+	int a, n, b, inp = -1, outp = -1;
 
 	(void)attr; (void)envp;
 	__CPROVER_assert(file != 0 && argv != 0, "posix_spawnp: file and argv are non-null");
@@ -265,47 +207,40 @@ osm_posix_spawnp(pid_t *pid, const char *file, const posix_spawn_file_actions_t 
 	__CPROVER_assert(n < OSM_MAXARGV, "os model: argv shorter than OSM_MAXARGV");
 	__CPROVER_assert(fa == 0 || (osm.fa_live && !osm.fa_destroyed), "posix_spawnp: file actions object is initialised");
 
-	k = osm.nspawn++;
-	__CPROVER_assert(k < OSM_MAXCHILD, "os model: spawn tape large enough for the harness");
-	if (tape(osm_tape.spawn_err, OSM_MAXCHILD, k) != 0) {
+	++osm.nspawn;
+	a = fa ? osm.cur : newattempt();
+	if (osm_tape.spawn_err[a] != 0) {
 		failure();
 		++osm.nspawnfail;
-		return tape(osm_tape.spawn_err, OSM_MAXCHILD, k);           /* no child; *pid is left alone (glibc, musl) */
+		return osm_tape.spawn_err[a];           /* no child; *pid is left alone (glibc, musl) */
+	}
+	if (fa) {
+		/* stdin must be the READ end of a pipe, stdout a WRITE end, to count as a pipeline connection */
+		b = fdbit(osm.fa_in);
+		if (b >= 0 && b < 2 * OSM_MAXCHILD && (b & 1) == 0)
+			inp = b / 2;
+		b = fdbit(osm.fa_out);
+		if (b >= 0 && b < 2 * OSM_MAXCHILD && (b & 1) == 1)
+			outp = b / 2;
 	}
 	/* descriptors that are open and not close-on-exec are inherited under their own number */
-	for (i = 0; i < OSM_MAXFD; ++i) {
-		if (osm.fd[i].kind != OSM_FD_FREE && !osm.fd[i].cloexec)
-			++leaked;
-	}
-	inp = fa ? pipe_of(osm.fa_in) : -1;
-	outp = fa ? pipe_of(osm.fa_out) : -1;
-	j = newchild(pid);
-	FOR_SLOT(i, OSM_MAXCHILD, j) {
-		osm.child[i].argv = (char **)argv;
-		osm.child[i].argc = n;
-		osm.child[i].file = file;
-		if (fa) {
-			osm.child[i].in_fd = osm.fa_in;
-			osm.child[i].out_fd = osm.fa_out;
-			osm.child[i].in_pipe = inp;
-			osm.child[i].out_pipe = outp;
-		}
-		osm.child[i].leaked = leaked;
-	}
+	newchild(a, pid, (char **)argv, n, file, fa ? osm.fa_in : -1, fa ? osm.fa_out : -1, inp, outp,
+	         pop32(osm.fd_open & ~osm.fd_cloexec));
 	if (pid)
-		*pid = osm_tape.pidbase + j;
+		*pid = osm_tape.pidbase + a;
 	return 0;
 }
 
 int
-osm_fa_init(posix_spawn_file_actions_t *a)
+osm_fa_init(posix_spawn_file_actions_t *fa)
 {
-	int k = osm.nfainit++;
+	int a = newattempt();
 
-	(void)a;
-	__CPROVER_assert(k < OSM_MAXCHILD, "os model: file-actions tape large enough for the harness");
-	if (tape(osm_tape.fa_init_err, OSM_MAXCHILD, k))
-		return tape(osm_tape.fa_init_err, OSM_MAXCHILD, k);
+	(void)fa;
+	if (osm_tape.fa_init_err[a]) {
+		failure();
+		return osm_tape.fa_init_err[a];
+	}
 	if (osm.fa_live && !osm.fa_destroyed)
 		++osm.fa_bad;                           /* previous object never destroyed: leak */
 	osm.fa_live = 1;
@@ -315,9 +250,9 @@ osm_fa_init(posix_spawn_file_actions_t *a)
 }
 
 int
-osm_fa_destroy(posix_spawn_file_actions_t *a)
+osm_fa_destroy(posix_spawn_file_actions_t *fa)
 {
-	(void)a;
+	(void)fa;
 	if (!osm.fa_live || osm.fa_destroyed)
 		++osm.fa_bad;                           /* destroy of an uninitialised / already destroyed object */
 	osm.fa_destroyed = 1;
@@ -325,108 +260,140 @@ osm_fa_destroy(posix_spawn_file_actions_t *a)
 }
 
 int
-osm_fa_adddup2(posix_spawn_file_actions_t *a, int fd, int newfd_)
+osm_fa_adddup2(posix_spawn_file_actions_t *fa, int fd, int newfd)
 {
-	int k = osm.nfainit - 1;
+	int a = osm.cur;
 
-	(void)a;
-	++osm.nfadup2;
-	if (!osm.fa_live || osm.fa_destroyed || k < 0 || (newfd_ != 0 && newfd_ != 1)) {
+	(void)fa;
+	if (!osm.fa_live || osm.fa_destroyed || (newfd != 0 && newfd != 1)) {
 		++osm.fa_bad;
 		return EBADF;
 	}
-	if (newfd_ == 0 && tape(osm_tape.fa_dup2_in_err, OSM_MAXCHILD, k))
-		return tape(osm_tape.fa_dup2_in_err, OSM_MAXCHILD, k);
-	if (newfd_ == 1 && tape(osm_tape.fa_dup2_out_err, OSM_MAXCHILD, k))
-		return tape(osm_tape.fa_dup2_out_err, OSM_MAXCHILD, k);
-	if (newfd_ == 0)
+	if (newfd == 0 && osm_tape.fa_dup2_in_err[a]) {
+		failure();
+		return osm_tape.fa_dup2_in_err[a];
+	}
+	if (newfd == 1 && osm_tape.fa_dup2_out_err[a]) {
+		failure();
+		return osm_tape.fa_dup2_out_err[a];
+	}
+	if (newfd == 0)
 		osm.fa_in = fd;
-	else if (newfd_ == 1)
+	else
 		osm.fa_out = fd;
 	return 0;
 }
 
 static pid_t
-report(struct osm_child *c, int *status, int k)
+report(int a, int *status, int k)
 {
-	c->reaped = 1;
-	c->status = tape(osm_tape.wait_status, OSM_MAXWAIT, k);
-	if (!osm_status_ok(c->status))
+	int i, s = osm_tape.wait_status[k];
+
+	osm.reaped |= BIT(a);
+	FOR_SLOT(i, OSM_MAXCHILD, a)
+		osm.child[i].status = s;
+	if (!osm_status_ok(s))
 		failure();
 	if (status)
-		*status = c->status;
-	return c->pid;
+		*status = s;
+	return osm_tape.pidbase + a;
 }
 
 pid_t
 osm_wait(int *status)
 {
-	int k, i, n, want, seen;
+	unsigned live = osm_livemask();
+	int k, i, a;
 
 	k = osm.nwait++;
 	__CPROVER_assert(k < OSM_MAXWAIT, "os model: wait tape large enough for the harness");
-	n = osm_nlive();
-	if (osm.unknown_left > 0 && (tapeb(osm_tape.wait_unknown, OSM_MAXWAIT, k) || n == 0)) {
+	if (osm.unknown_left > 0 && (osm_tape.wait_unknown[k] || live == 0)) {
 		/* a child that the driver did not start (inherited from the program that exec'ed it) */
 		--osm.unknown_left;
 		if (status)
-			*status = tape(osm_tape.wait_status, OSM_MAXWAIT, k);
+			*status = osm_tape.wait_status[k];
 		return osm_tape.pidbase + OSM_MAXCHILD + osm.unknown_left;
 	}
-	if (n == 0) {
+	if (live == 0) {
 		errno = ECHILD;
 		return -1;
 	}
-	want = tapeb(osm_tape.wait_pick, OSM_MAXWAIT, k) % n;
-	seen = 0;
-	for (i = 0; i < OSM_MAXCHILD; ++i) {
-		if (i < osm.nchild && !osm.child[i].reaped) {
-			if (seen == want)
-				return report(&osm.child[i], status, k);
-			++seen;
+	a = osm_tape.wait_pick[k];
+	if (a >= OSM_MAXCHILD || !(live >> a & 1)) {
+		/* any other tape value: the oldest live child (every live child stays selectable by its number) */
+		for (i = OSM_MAXCHILD - 1; i >= 0; --i) {
+			if (live >> i & 1)
+				a = i;
 		}
 	}
-	__CPROVER_assert(0, "os model: unreachable");
-	return -1;
+	return report(a, status, k);
 }
 
 pid_t
 osm_waitpid(pid_t pid, int *status, int options)
 {
-	int k, i;
+	int k, a;
 
 	if (pid == -1 && options == 0)
 		return osm_wait(status);
 	__CPROVER_assert(options == 0, "os model: waitpid options == 0");
 	k = osm.nwait++;
 	__CPROVER_assert(k < OSM_MAXWAIT, "os model: wait tape large enough for the harness");
-	for (i = 0; i < OSM_MAXCHILD; ++i) {
-		if (i < osm.nchild && !osm.child[i].reaped && osm.child[i].pid == pid)
-			return report(&osm.child[i], status, k);
+	a = pid >= osm_tape.pidbase ? pid - osm_tape.pidbase : OSM_MAXCHILD;
+	if (a >= OSM_MAXCHILD || !(osm_livemask() >> a & 1)) {
+		errno = ECHILD;
+		return -1;
 	}
-	errno = ECHILD;
-	return -1;
+	return report(a, status, k);
 }
 
 int
 osm_kill(pid_t pid, int sig)
 {
-	int i;
+	int a = pid >= osm_tape.pidbase ? pid - osm_tape.pidbase : OSM_MAXCHILD;
 
 	++osm.nkill;
-	for (i = 0; i < OSM_MAXCHILD; ++i) {
-		if (i < osm.nchild && !osm.child[i].reaped && osm.child[i].pid == pid) {
-			if (sig == SIGTERM)
-				++osm.child[i].nterm;
-			else
-				++osm.badkill;
-			return 0;
-		}
+	if (a >= OSM_MAXCHILD || !(osm_livemask() >> a & 1)) {
+		/* pid 0 / -1 / a reaped (possibly recycled) pid / a process that is not ours */
+		++osm.badkill;
+		errno = ESRCH;
+		return -1;
 	}
-	/* pid 0 / -1 / a reaped (possibly recycled) pid / a process that is not ours */
-	++osm.badkill;
-	errno = ESRCH;
-	return -1;
+	if (sig == SIGTERM)
+		osm.termed |= BIT(a);
+	else
+		++osm.badkill;
+	return 0;
+}
+
+/* Net effect of starting one pipeline stage, for units that replace driver.c's spawnphase() by a stub (the real
+   spawnphase is proved to have exactly this effect by unit DRV.spawnphase): either a failure (tape spawn_err[a],
+   nothing left behind, *fd untouched), or a new child whose stdin is *fd (unless -1) and, unless it is the last
+   stage, whose stdout is the write end of a new pipe; the read end is returned in *fd, the write end is closed
+   in the driver. */
+int
+osm_stage_start(pid_t *pidp, int *fd, int last)
+{
+	int a = newattempt(), b, inp = -1;
+	unsigned both = 3u << (2 * a);
+
+	++osm.nspawn;
+	if (osm_tape.spawn_err[a] != 0) {
+		failure();
+		++osm.nspawnfail;
+		return osm_tape.spawn_err[a];
+	}
+	b = fdbit(*fd);
+	if (b >= 0 && b < 2 * OSM_MAXCHILD && (b & 1) == 0)
+		inp = b / 2;
+	newchild(a, pidp, 0, 0, 0, *fd, last ? -1 : OSM_FD0 + 2 * a + 1, inp, last ? -1 : a, 0);
+	*pidp = osm_tape.pidbase + a;
+	if (!last) {
+		osm.fd_open |= BIT(2 * a);              /* read end stays open in the driver, close-on-exec */
+		osm.fd_cloexec |= both;
+		*fd = OSM_FD0 + 2 * a;
+	}
+	return 0;
 }
 
 /* ------------------------------------------------------------------------------------------ files */
@@ -434,60 +401,57 @@ osm_kill(pid_t pid, int sig)
 int
 osm_pipe(int fd[2])
 {
-	int k = osm.npipe++;
+	int a = osm.cur;
+	unsigned both = 3u << (2 * a);
 
-	__CPROVER_assert(k < OSM_MAXCHILD, "os model: pipe tape large enough for the harness");
-	if (tape(osm_tape.pipe_err, OSM_MAXCHILD, k)) {
-		errno = tape(osm_tape.pipe_err, OSM_MAXCHILD, k);
+	__CPROVER_assert(osm.nattempt > 0 && !(osm.fd_open & both), "os model: at most one pipe per spawn attempt");
+	if (osm_tape.pipe_err[a]) {
+		failure();
+		errno = osm_tape.pipe_err[a];
 		return -1;
 	}
-	fd[0] = newfd(OSM_FD_PIPE_R, k);
-	fd[1] = newfd(OSM_FD_PIPE_W, k);
+	fd[0] = OSM_FD0 + 2 * a;
+	fd[1] = OSM_FD0 + 2 * a + 1;
+	osm.fd_open |= both;
+	osm.fd_cloexec &= ~both;
 	return 0;
 }
 
 int
 osm_fcntl3(int fd, int cmd, int arg)
 {
-	int k = osm.nfcntl++, i, found = 0;
+	int a = osm.cur, j = osm.nfcntl_cur++, b = fdbit(fd);
 
-	__CPROVER_assert(k < 2 * OSM_MAXCHILD, "os model: fcntl tape large enough for the harness");
+	__CPROVER_assert(j < 2, "os model: at most two fcntl calls per spawn attempt");
 	__CPROVER_assert(cmd == F_SETFD, "os model: only fcntl(F_SETFD) is modelled");
-	FOR_SLOT(i, OSM_MAXFD, fd - OSM_FD0) {
-		if (osm.fd[i].kind != OSM_FD_FREE)
-			found = 1;
-	}
-	if (!found) {
+	if (b < 0) {
+		failure();
 		errno = EBADF;
 		return -1;
 	}
-	if (tape(osm_tape.fcntl_err, 2 * OSM_MAXCHILD, k)) {
-		errno = tape(osm_tape.fcntl_err, 2 * OSM_MAXCHILD, k);
+	if (osm_tape.fcntl_err[a][j]) {
+		failure();
+		errno = osm_tape.fcntl_err[a][j];
 		return -1;
 	}
-	FOR_SLOT(i, OSM_MAXFD, fd - OSM_FD0)
-		osm.fd[i].cloexec = (arg & FD_CLOEXEC) != 0;
+	if (arg & FD_CLOEXEC)
+		osm.fd_cloexec |= BIT(b);
+	else
+		osm.fd_cloexec &= ~BIT(b);
 	return 0;
 }
 
 int
 osm_close(int fd)
 {
-	int i, found = 0;
+	int b = fdbit(fd);
 
-	FOR_SLOT(i, OSM_MAXFD, fd - OSM_FD0) {
-		if (osm.fd[i].kind != OSM_FD_FREE) {
-			found = 1;
-			osm.fd[i].kind = OSM_FD_FREE;
-			osm.fd[i].pipe = -1;
-		}
-	}
-	if (!found) {
+	if (b < 0) {
 		++osm.badclose;                         /* double close or close of a descriptor we never opened */
 		errno = EBADF;
 		return -1;
 	}
-	--osm.nopen;
+	osm.fd_open &= ~BIT(b);
 	return 0;
 }
 
@@ -495,6 +459,7 @@ int
 osm_mkstemp(char *tmpl)
 {
 	size_t n;
+	int b;
 
 	__CPROVER_assert(tmpl != 0, "mkstemp: template non-null");
 	n = strlen(tmpl);
@@ -505,8 +470,11 @@ osm_mkstemp(char *tmpl)
 		return -1;
 	}
 	tmpl[n - 6] = 'a'; tmpl[n - 1] = 'z';           /* the template is modified in place */
+	b = 2 * OSM_MAXCHILD + osm.ntmp;
 	osm_pretend_tmp(tmpl);
-	return newfd(OSM_FD_FILE, -1);
+	osm.fd_open |= BIT(b);
+	osm.fd_cloexec &= ~BIT(b);
+	return OSM_FD0 + b;
 }
 
 int
@@ -521,7 +489,7 @@ osm_unlink(const char *path)
 	++osm.nunlink;
 	for (i = 0; i < OSM_MAXTMP; ++i) {
 		if (i < osm.ntmp && osm.tmp[i] == path)
-			osm.tmp_unlinked[i] = 1;
+			osm.tmp_unlinked |= BIT(i);
 	}
 	return 0;
 }
